@@ -30,6 +30,8 @@ QConst(v)         == [t |-> "const", v |-> v]
 QNot(arg)         == [t |-> "not", arg |-> arg]
 QLogical(op, l, r) == [t |-> "logical", op |-> op, l |-> l, r |-> r]
 QBoolean(isOr, l, r) == [t |-> "boolean", isOr |-> isOr, l |-> l, r |-> r]
+\* a function call: functionQuery{Func: closure over the ARGUMENT queries}; arguments are cloned for every call
+QCall(f, args)    == [t |-> "call", f |-> f, args |-> args]
 QUnion(l, r)      == [t |-> "union", l |-> l, r |-> r]
 QNumeric(op, l, r) == [t |-> "numeric", op |-> op, l |-> l, r |-> r]
 \* position() / last(): a functionQuery whose Input is the builder's "first input" at the moment the call
@@ -69,44 +71,56 @@ AxisOf(s, smart, in) ==
 \* filter(...filter(filter(base, p1), p2)..., pk)
 \* h = the test position()/last() of the FIRST predicate scan with; later predicates see the previous
 \* filter query as "first input", which has no test
-B2Chain(base, preds, smart, h) ==
-    IF preds = <<>> THEN base ELSE B2Chain(QFilter(base, B2ExprH(Head(preds), smart, h)), Tail(preds), smart, NoHost)
-B2Expr(e, smart) == B2ExprH(e, smart, NoHost)
+\* fl: the builder's flags for the node being built, a subset of {"S", "F"}: S = SmartDesc (the consumer is a descendant step),
+\* F = Filter (the node is the input of a predicate filter, or the CONDITION of a filter that is itself the input of another
+\* one: in a chain step[p1][p2] the condition p1 is built with F, p2 without).  F disables the '//' folding, the SmartDesc
+\* hand-over and the merge rewrite at the node that receives it; below it the flags start afresh.
+B2Chain(base, preds, fl, h) ==
+    IF preds = <<>> THEN base
+    ELSE B2Chain(QFilter(base, B2ExprH(Head(preds),
+                                       IF Len(preds) > 1   \* an inner filter of the chain: built with (flags | F) & ^S   (F-C02-6)
+                                       THEN (IF "smart-through-filter" \in Deviations THEN fl ELSE fl \ {"S"}) \cup {"F"}
+                                       ELSE fl, h)),
+                 Tail(preds), fl, NoHost)
+B2Expr(e, fl) == B2ExprH(e, fl, NoHost)
 
-B2Steps(steps, n, abs, smart) ==
+B2Steps(steps, n, abs, fl) ==
     IF n = 0 THEN (IF abs THEN QAbs ELSE QCtx)
     ELSE LET s == steps[n] IN
          IF s.preds = <<>>
          THEN \* exactly XQueryVM.BuildSteps, but the input may carry predicates
-              IF s.ax = "child" /\ n > 1 /\ IsDosNode(steps[n - 1])
-              THEN QAxis("desc", FALSE, s.nt, s.ax, B2Steps(steps, n - 2, abs, TRUE))
-              ELSE AxisOf(s, smart, B2Steps(steps, n - 1, abs, s.ax \in {"descendant", "descendant-or-self"}))
+              IF "F" \notin fl /\ s.ax = "child" /\ n > 1 /\ IsDosNode(steps[n - 1])
+              THEN QAxis("desc", FALSE, s.nt, s.ax, B2Steps(steps, n - 2, abs, {"S"}))
+              ELSE AxisOf(s, "S" \in fl, B2Steps(steps, n - 1, abs,
+                                                 IF "F" \notin fl /\ s.ax \in {"descendant", "descendant-or-self"} THEN {"S"} ELSE {}))
          ELSE \* under a filter the step's input is built without '//' folding and without SmartDesc
-              LET in == B2Steps(steps, n - 1, abs, FALSE)
-                  hs == smart /\ "smart-through-filter" \in Deviations   \* the flag stops at a predicate (F-C02-6)
+              LET in == B2Steps(steps, n - 1, abs, {})
+                  hs == "S" \in fl /\ "smart-through-filter" \in Deviations   \* the flag stops at a predicate (F-C02-6)
                   ax == AxisOf(s, hs, in)
-              IN IF Len(s.preds) = 1 /\ Positional(s.preds[1]) /\ in.t # "ctx"
+                  h == [HostOf(s) EXCEPT !.has = (ax.t # "dod")]
+              IN IF "F" \notin fl /\ Len(s.preds) = 1 /\ Positional(s.preds[1]) /\ in.t # "ctx"
                  THEN \* merge rewrite: the step and its predicate are evaluated once per input node
-                      QMerge(in, QFilter(AxisOf(s, hs, QCtx), B2ExprH(s.preds[1], smart, [HostOf(s) EXCEPT !.has = (ax.t # "dod")])))
-                 ELSE B2Chain(ax, s.preds, smart, [HostOf(s) EXCEPT !.has = (ax.t # "dod")])
+                      QMerge(in, QFilter(AxisOf(s, hs, QCtx), B2ExprH(s.preds[1], fl, h)))
+                 ELSE B2Chain(ax, s.preds, fl, h)
 
-B2ExprH(e, smart, h) ==
-    CASE e.t = "path"  -> B2Steps(e.steps, Len(e.steps), e.abs, smart)
-      [] e.t = "union" -> QUnion(B2ExprH(e.l, FALSE, h), B2ExprH(e.r, FALSE, h))
+B2ExprH(e, fl, h) ==
+    CASE e.t = "path"  -> B2Steps(e.steps, Len(e.steps), e.abs, fl)
+      [] e.t = "union" -> QUnion(B2ExprH(e.l, {}, h), B2ExprH(e.r, {}, h))
       [] e.t = "num"   -> QConst([k |-> "n", v |-> e.v.n])          \* integer literals only
       [] e.t = "lit"   -> QConst([k |-> "s", v |-> e.s])
-      [] e.t = "call"  -> IF e.f = "not" THEN QNot(B2ExprH(e.args[1], FALSE, h))       \* not(), position(), last() in this fragment
-                          ELSE QFn(e.f, h)
+      [] e.t = "call"  -> IF e.f = "not" THEN QNot(B2ExprH(e.args[1], {}, h))
+                          ELSE IF e.f \in {"position", "last"} THEN QFn(e.f, h)
+                          ELSE QCall(e.f, [i \in 1 .. Len(e.args) |-> B2ExprH(e.args[i], {}, h)])   \* count contains starts-with local-name true false
       [] e.t = "bin"   -> \* (an operand that is a path would replace the builder's first input: the pool keeps
                           \*  position()/last() out of predicates that also contain paths)
-                          IF e.op \in {"and", "or"} THEN QBoolean(e.op = "or", B2ExprH(e.l, FALSE, h), B2ExprH(e.r, FALSE, h))
-                          ELSE IF e.op \in ArithOps THEN QNumeric(e.op, B2ExprH(e.l, FALSE, h), B2ExprH(e.r, FALSE, h))
-                          ELSE QLogical(e.op, B2ExprH(e.l, FALSE, h), B2ExprH(e.r, FALSE, h))
+                          IF e.op \in {"and", "or"} THEN QBoolean(e.op = "or", B2ExprH(e.l, {}, h), B2ExprH(e.r, {}, h))
+                          ELSE IF e.op \in ArithOps THEN QNumeric(e.op, B2ExprH(e.l, {}, h), B2ExprH(e.r, {}, h))
+                          ELSE QLogical(e.op, B2ExprH(e.l, {}, h), B2ExprH(e.r, {}, h))
       [] e.t = "filter" ->   \* (P)[p...] with a predicate-free path P; no steps after it in this fragment.  groupQuery has no
                              \* Merge property, so the merge rewrite never applies: a plain chain of filters over the group
-           B2Chain(QGroup(B2Expr(e.e, FALSE)), e.preds, smart,
+           B2Chain(QGroup(B2Expr(e.e, {})), e.preds, fl,
                    IF e.e.t = "path" /\ e.e.steps # <<>> THEN HostOf(e.e.steps[Len(e.e.steps)]) ELSE NoHost)
-Build2(e) == B2Expr(e, FALSE)
+Build2(e) == B2Expr(e, {})
 
 \* ---- iteration state -------------------------------------------------------
 MaxLevel == 16
@@ -115,7 +129,7 @@ Base2 == [active |-> FALSE, node |-> 0, first |-> FALSE, level |-> 0, table |-> 
           attrPending |-> FALSE, posit |-> 0, pm |-> [i \in 0 .. MaxLevel |-> 0], list |-> <<>>, idx |-> 0, done |-> FALSE, count |-> 0]
 RECURSIVE Init2(_)
 Init2(q) ==
-    CASE q.t \in {"ctx", "abs", "const", "fn"} -> Base2
+    CASE q.t \in {"ctx", "abs", "const", "fn", "call"} -> Base2
       [] q.t \in {"numeric", "union"} -> Base2 @@ [l |-> Init2(q.l), r |-> Init2(q.r)]
       [] q.t \in AxisKinds   -> [Base2 EXCEPT !.node = 0] @@ [in |-> Init2(q.in)]
       [] q.t = "filter"      -> Base2 @@ [in |-> Init2(q.in), pred |-> Init2(q.pred)]
@@ -146,7 +160,7 @@ NumRel(op, a, b) == CASE op = "=" -> a = b [] op = "!=" -> a # b [] op = "<" -> 
                       [] op = ">" -> a > b [] op = ">=" -> a >= b
 
 RECURSIVE Sel2(_, _, _, _), Ev2(_, _, _, _), DoPred(_, _, _, _, _), FollLoop2(_, _, _, _), PrecLoop2(_, _, _, _),
-          DodLoop2(_, _, _, _, _, _), Drain2(_, _, _, _, _), CmpLoop(_, _, _, _, _, _, _), PrecNextRoot2(_, _, _, _), UDrain(_, _, _, _, _, _)
+          DodLoop2(_, _, _, _, _, _), Drain2(_, _, _, _, _), CmpLoop(_, _, _, _, _, _, _), PrecNextRoot2(_, _, _, _), UDrain(_, _, _, _, _, _), CountLoop(_, _, _, _, _), VmArgStr(_, _, _)
 
 \* preceding (non-sibling): like PrecNextRoot but the position counter restarts when climbing
 PrecNextRoot2(d, node, ops, posit) ==
@@ -198,14 +212,16 @@ Drain2(q, st, g, x, acc) ==
     IN IF r.n = 0 \/ Len(acc) > 4 * Len(g.d) THEN [list |-> acc, st |-> r.st, ops |-> r.ops]
        ELSE Drain2(q, r.st, g, [x EXCEPT !.ops = r.ops], Append(acc, r.n))
 
-\* cmpNodeSetString: Select a until some node's value satisfies op against the literal
-CmpLoop(q, st, g, x, op, lit, swap) ==
+\* cmpNodeSetString / cmpNodeSetNumeric (swap: cmpNumericNodeSet): Select until some node's value satisfies op
+\* against the constant w = [k |-> "s" | "n", v]; a number is compared with stringToNumber(string-value)
+CmpHit(op, sv, w, swap) ==
+    IF w.k = "s" THEN (IF op = "=" THEN sv = w.v ELSE sv # w.v)
+    ELSE IF swap THEN NumCompare(op, NumInt(w.v), StrToNum(sv)) ELSE NumCompare(op, StrToNum(sv), NumInt(w.v))
+CmpLoop(q, st, g, x, op, w, swap) ==
     LET r == Sel2(q, st, g, x)
     IN IF r.n = 0 THEN V2([k |-> "b", v |-> FALSE], r.st, r.ops)
-       ELSE LET sv == StringValue(g.d, r.n)
-                hit == IF op = "=" THEN sv = lit ELSE sv # lit
-            IN IF hit THEN V2([k |-> "b", v |-> TRUE], r.st, r.ops)
-               ELSE CmpLoop(q, r.st, g, [x EXCEPT !.ops = r.ops], op, lit, swap)
+       ELSE IF CmpHit(op, StringValue(g.d, r.n), w, swap) THEN V2([k |-> "b", v |-> TRUE], r.st, r.ops)
+       ELSE CmpLoop(q, r.st, g, [x EXCEPT !.ops = r.ops], op, w, swap)
 
 \* Evaluate: reset and/or compute.  x = [c |-> context node, ops]
 Ev2(q, st, g, x) ==
@@ -231,6 +247,23 @@ Ev2(q, st, g, x) ==
                                n == Ev2(q.r, st.r, g, [x EXCEPT !.ops = m.ops])
                            IN V2(IsQ, [st EXCEPT !.active = FALSE, !.l = m.st, !.r = n.st], n.ops)
       [] q.t = "const"  -> V2(q.v, st, x.ops)
+      [] q.t = "call" ->
+           (CASE q.f = "true"  -> V2([k |-> "b", v |-> TRUE], st, x.ops)
+              [] q.f = "false" -> V2([k |-> "b", v |-> FALSE], st, x.ops)
+              [] q.f = "local-name" /\ Len(q.args) = 0 ->
+                   V2([k |-> "s", v |-> IF g.d[x.c].k \in {"elem", "attr"} THEN g.d[x.c].n ELSE ""], st, x.ops)
+              [] q.f = "count" ->
+                   LET a == q.args[1]
+                       e == Ev2(a, Init2(a), g, x)
+                   IN IF e.v.k = "q" THEN LET c == CountLoop(a, e.st, g, [x EXCEPT !.ops = e.ops], 0) IN V2([k |-> "n", v |-> c.v], st, c.ops)
+                      ELSE V2([k |-> "n", v |-> 0], st, e.ops)
+              [] q.f \in {"contains", "starts-with"} ->
+                   LET m == VmArgStr(q.args[1], g, x)
+                       n == VmArgStr(q.args[2], g, [x EXCEPT !.ops = m.ops])
+                   IN IF m.ok /\ n.ok
+                      THEN V2([k |-> "b", v |-> IF q.f = "contains" THEN StrContains(m.v, n.v) ELSE StrStartsWith(m.v, n.v)], st, n.ops)
+                      ELSE V2([k |-> "err", v |-> "argument type"], st, n.ops)
+              [] OTHER -> V2([k |-> "err", v |-> "outside the modelled fragment"], st, x.ops))
       [] q.t = "fn" ->
            IF q.f = "position"
            THEN LET r == PosScan(g, q.h, x.c, 1, x.ops) IN V2([k |-> "n", v |-> r.v], st, r.ops)
@@ -254,13 +287,13 @@ Ev2(q, st, g, x) ==
            LET m == Ev2(q.l, st.l, g, x)
                n == Ev2(q.r, st.r, g, [x EXCEPT !.ops = m.ops])
                s1 == [st EXCEPT !.l = m.st, !.r = n.st, !.done = FALSE]
-           IN IF m.v.k = "q" /\ n.v.k = "s"
-              THEN LET c == CmpLoop(q.l, m.st, g, [x EXCEPT !.ops = n.ops], q.op, n.v.v, FALSE)
+           IN IF m.v.k = "q" /\ ((n.v.k = "s" /\ q.op \in {"=", "!="}) \/ n.v.k = "n")
+              THEN LET c == CmpLoop(q.l, m.st, g, [x EXCEPT !.ops = n.ops], q.op, n.v, FALSE)
                    IN V2(c.v, [s1 EXCEPT !.l = c.st], c.ops)
-              ELSE IF m.v.k = "s" /\ n.v.k = "q"
-              THEN LET c == CmpLoop(q.r, n.st, g, [x EXCEPT !.ops = n.ops], q.op, m.v.v, TRUE)
+              ELSE IF n.v.k = "q" /\ ((m.v.k = "s" /\ q.op \in {"=", "!="}) \/ m.v.k = "n")
+              THEN LET c == CmpLoop(q.r, n.st, g, [x EXCEPT !.ops = n.ops], q.op, m.v, TRUE)
                    IN V2(c.v, [s1 EXCEPT !.r = c.st], c.ops)
-              ELSE IF m.v.k = "s" /\ n.v.k = "s"
+              ELSE IF m.v.k = "s" /\ n.v.k = "s" /\ q.op \in {"=", "!="}
               THEN V2([k |-> "b", v |-> IF q.op = "=" THEN m.v.v = n.v.v ELSE m.v.v # n.v.v], s1, n.ops)
               ELSE IF m.v.k = "n" /\ n.v.k = "n"
               THEN V2([k |-> "b", v |-> NumRel(q.op, m.v.v, n.v.v)], s1, n.ops)
@@ -276,6 +309,17 @@ Ev2(q, st, g, x) ==
                        rb == IF n.v.k = "q" THEN Sel2(q.r, n.st, g, [x EXCEPT !.ops = n.ops]) ELSE R2(0, n.st, n.ops)
                        right == IF n.v.k = "q" THEN rb.n # 0 ELSE n.v.v
                    IN V2([k |-> "b", v |-> right], [s1 EXCEPT !.r = rb.st], rb.ops)
+
+\* count(): drain a fresh clone of the argument
+CountLoop(q, st, g, x, n) ==
+    LET r == Sel2(q, st, g, x) IN IF r.n = 0 THEN [v |-> n, ops |-> r.ops] ELSE CountLoop(q, r.st, g, [x EXCEPT !.ops = r.ops], n + 1)
+\* a string-typed argument: a fresh clone is evaluated; a node-set gives the string-value of the FIRST DELIVERED node
+VmArgStr(a, g, x) ==
+    LET e == Ev2(a, Init2(a), g, x)
+    IN IF e.v.k = "s" THEN [ok |-> TRUE, v |-> e.v.v, ops |-> e.ops]
+       ELSE IF e.v.k = "q" THEN LET r == Sel2(a, e.st, g, [x EXCEPT !.ops = e.ops])
+                                IN [ok |-> TRUE, v |-> IF r.n = 0 THEN "" ELSE StringValue(g.d, r.n), ops |-> r.ops]
+       ELSE [ok |-> FALSE, v |-> "", ops |-> e.ops]
 
 \* unionQuery: drain one operand; a node is kept when its identity KEY (getHashCode, XHash.tla) is new.
 \* acc = [list, keys]; the hash is computed on a copy of the delivered navigator (same movement log)
@@ -417,6 +461,7 @@ HasUnion(q) == CASE q.t = "union" -> TRUE
                  [] q.t = "filter" -> HasUnion(q.in) \/ HasUnion(q.pred)
                  [] q.t = "merge" -> HasUnion(q.in) \/ HasUnion(q.child)
                  [] q.t = "not" -> HasUnion(q.arg)
+                 [] q.t = "call" -> \E i \in 1 .. Len(q.args) : HasUnion(q.args[i])
                  [] q.t \in {"logical", "boolean", "numeric"} -> HasUnion(q.l) \/ HasUnion(q.r)
                  [] OTHER -> FALSE
 RunAll2(e, g, c) ==
